@@ -240,6 +240,24 @@ def gen_formula(rng, depth, atoms, T):
     return [None, T.And, T.Or, T.Implies, T.Eq][k](a, b)
 
 
+def gen_unsat_formula(rng, atoms, T):
+    """Negated instance of a tautology scheme (or a direct contradiction): unsatisfiable, and for a reason that goes
+    through every connective's defining clauses."""
+    g = gen_formula(rng, rng.randint(0, 1), atoms, T)
+    h = gen_formula(rng, rng.randint(0, 1), atoms, T)
+    k = gen_formula(rng, 0, atoms, T)
+    N, A, O, I, E = T.Not, T.And, T.Or, T.Implies, T.Eq
+    schemes = [
+        lambda: A(g, N(g)), lambda: N(O(g, N(g))), lambda: N(I(g, g)), lambda: E(g, N(g)), lambda: N(E(g, g)),
+        lambda: N(I(A(g, h), g)), lambda: N(I(A(g, h), h)), lambda: N(I(g, O(g, h))), lambda: N(I(h, O(g, h))),
+        lambda: N(I(A(I(g, h), g), h)), lambda: N(I(E(g, h), E(h, g))), lambda: N(E(N(A(g, h)), O(N(g), N(h)))),
+        lambda: N(E(N(O(g, h)), A(N(g), N(h)))), lambda: N(E(I(g, h), O(N(g), h))), lambda: A(O(g, h), A(N(g), N(h))),
+        lambda: N(I(A(E(g, h), E(h, k)), E(g, k))), lambda: A(E(g, h), A(g, N(h))), lambda: A(I(g, h), A(g, N(h))),
+        lambda: N(E(N(N(g)), g)), lambda: A(E(g, h), A(N(g), h)),
+    ]
+    return rng.choice(schemes)()
+
+
 def eval_form(t, env):
     if t.is_not():
         return not eval_form(t.arg, env)
@@ -289,12 +307,17 @@ def tseitin_stage(ctx):
     rng = ctx.rng("tseitin")
     atoms = [T.Var(n, BoolType) for n in "abcd"]
     atom_ids = {"a": 0, "b": 1, "c": 2, "d": 3}
-    n = ctx.scale(25, 300)
+    n = ctx.scale(60, 600)
     lines, impl_cnfs = [], []
     fixed = [atoms[0], T.And(atoms[0], atoms[0]), T.Eq(atoms[0], atoms[1]), T.Not(T.Not(atoms[0])),
              T.Or(T.And(atoms[0], T.Not(atoms[0])), atoms[1]), T.Implies(T.And(atoms[0], atoms[1]), T.And(atoms[0], atoms[1]))]
     for i in range(n + len(fixed)):
-        f = fixed[i] if i < len(fixed) else gen_formula(rng, rng.randint(1, 3), atoms, T)
+        if i < len(fixed):
+            f = fixed[i]
+        elif rng.random() < 0.45:
+            f = gen_unsat_formula(rng, atoms, T)
+        else:
+            f = gen_formula(rng, rng.randint(1, 3), atoms, T)
         ctx.case(("tseitin", str(f)), nontrivial=not f.is_var())
         ctx.count("tseitin")
         try:
@@ -309,13 +332,13 @@ def tseitin_stage(ctx):
                           {"formula": str(f), "error": repr(e)})
             continue
         if th != pt.th or len(rpt.gaps) > 0:
-            ctx.violation("tseitin:not-checked", "Tseitin theorem for %s not accepted by the checker" % f, {"formula": str(f)})
+            ctx.violation("tseitin:not-checked:%s" % f, "Tseitin theorem for %s not accepted by the checker" % f, {"formula": str(f)})
             continue
         # Semantic oracle: hyps are As (x_i <-> ...) and F; conclusion is the CNF.
         try:
             cnf = tseitin.convert_cnf(pt.prop)
         except Exception as e:  # noqa
-            ctx.violation("tseitin:not-cnf", "conclusion of Tseitin theorem for %s is not a CNF" % f, {"formula": str(f), "prop": str(pt.prop)})
+            ctx.violation("tseitin:not-cnf:%s" % f, "conclusion of Tseitin theorem for %s is not a CNF" % f, {"formula": str(f), "prop": str(pt.prop)})
             continue
         # correspondence with the model's clause set: same numbering x1..xn of the subterms
         try:
@@ -334,8 +357,9 @@ def tseitin_stage(ctx):
                 if all(any(a[nm] == b for nm, b in cl) for cl in cnf):
                     c_sat = True
                     break
+            ctx.count("tseitin:formula-%s" % ("sat" if f_sat else "unsat"))
             if c_sat != f_sat:
-                ctx.violation("tseitin:not-equisat", "Tseitin CNF of %s is %ssatisfiable but the formula is %ssatisfiable" % (f, "" if c_sat else "un", "" if f_sat else "un"),
+                ctx.violation("tseitin:not-equisat:%s" % f, "Tseitin CNF of %s is %ssatisfiable but the formula is %ssatisfiable" % (f, "" if c_sat else "un", "" if f_sat else "un"),
                               {"formula": str(f), "cnf": cnf})
         # the sequent itself must be valid: every assignment satisfying all hyps satisfies the CNF
         allv = sorted(set(names) | set(f_atoms) | {v.name for h in pt.hyps for v in h.get_vars()})
@@ -343,7 +367,7 @@ def tseitin_stage(ctx):
             for bits in itertools.product((False, True), repeat=len(allv)):
                 a = dict(zip(allv, bits))
                 if all(eval_form(h, a) for h in pt.hyps) and not all(any(a[nm] == b for nm, b in cl) for cl in cnf):
-                    ctx.violation("tseitin:invalid-sequent", "Tseitin theorem for %s is not valid" % f, {"formula": str(f), "assignment": a})
+                    ctx.violation("tseitin:invalid-sequent:%s" % f, "Tseitin theorem for %s is not valid" % f, {"formula": str(f), "assignment": a})
                     break
     ctx.sample({"tseitin_formula": str(f)})
     out = ctx.lean_driver(EXE, lines) if lines else []
@@ -510,10 +534,15 @@ def judge(cnf, res):
     return None
 
 
-def shrink_cnf(sat, cnf, kind, budget=400):
+def shrink_cnf(sat, cnf, kind, budget=400, seconds=15):
     """Greedy: drop clauses, then literals, while the same kind of failure persists."""
+    import time
+    deadline = time.time() + seconds
+
     def fails(c):
-        r = run_impl(sat, c, 2)[0]
+        if time.time() > deadline:
+            return None
+        r = run_impl(sat, c, 1)[0]
         if r[0] == "timeout":
             return None
         v = judge(c, r)
@@ -626,10 +655,13 @@ def classify(cnf):
 
 
 def run(ctx):
-    ctx.coverage["rule"] = ("CNFs over int-named variables: random (1-12 variables, 0-60 clauses, width 0-4, with duplicate and "
-                            "tautological literals, empty clauses, duplicate clauses) and, in the thorough tier, every combination of "
-                            "<=3 clauses out of the 84 clause multisets of width <=3 over 3 variables; non-trivial = at least two clauses and "
-                            "one clause of width >=2; distinct by the literal lists. Tseitin: random formulas over 4 atoms, depth <=3.")
+    ctx.coverage["rule"] = ("CNFs over int-named variables, five families: random 3-SAT around the threshold (3-9 variables), mixed 2/3/4-SAT "
+                            "(3-12 variables, up to 60 clauses), structured (all sign patterns, pigeonhole, parity chains, implication ladders; shuffled, "
+                            "renamed, polarity-flipped), and messy (1-8 variables, unit/empty/duplicate clauses, repeated and complementary literals); in "
+                            "the thorough tier also every combination of <=3 clauses out of the 84 clause multisets of width <=3 over 3 variables. "
+                            "Non-trivial = at least two clauses and one clause of width >=2; distinct by the literal lists. The histogram records how many "
+                            "resolution calls / learned clauses each run needed. Tseitin: fixed corner cases, random formulas over 4 atoms of depth <=3, "
+                            "and negated tautology-scheme instances (unsatisfiable), ~45%.")
     # 1. translated table + Lean obligations
     try:
         gen = translate_encode_rules(ctx)
@@ -643,7 +675,8 @@ def run(ctx):
     ctx.coverage["trusted_base"] += [
         "correspondence harness harness/props/c15.py (generators, recorded set orders)",
         "translator of library/sat.json encode_* statements to Bool formulas",
-        "Python set/dict semantics; tseitin.encode's theorem is judged by the real checker + brute force, its construction is not modelled"]
+        "Python set/dict semantics; tseitin.encode's theorem is judged by the real checker + brute force; its CNF is compared with the "
+        "model's clause set (subterm numbering taken from tseitin.logic_subterms), the proof-term construction itself is not modelled"]
     ctx.assumptions += ["the model takes Python's set iteration orders as oracle inputs; theorems hold for every order",
                         "termination of solve_cnf is not proved (fuel); non-termination is searched for with time limits"]
     # 2+3. correspondence and oracle
@@ -693,11 +726,16 @@ def replay(ctx, rp):
 
 
 MANIFEST = {
-    "text": "Lean theorems about an executable model of solve_cnf for every CNF, fuel and set-iteration order; encode_* rules regenerated "
-            "from library/sat.json and re-proved each run; model tied to prover/sat.py by differential runs on generated CNFs; verdicts and "
-            "traces of the real solver judged by brute force and an independent trace replay. Termination is not proved (searched for with time limits).",
+    "text": "Lean theorems about an executable model of solve_cnf for every CNF, fuel and set-iteration order (sat_sound, unsat_sound, "
+            "trace_valid, verdict_correct), a verified certificate checker (checkTrace_sound, checkProofs_sound) that is run on every "
+            "'unsatisfiable' answer of the real solver, and tseitin_equisat for a model of the Tseitin CNF whose clause groups are the encode_* rules "
+            "regenerated from library/sat.json on each run; models tied to prover/sat.py and prover/tseitin.py by differential runs on generated "
+            "inputs; verdicts, assignments and traces of the real solver judged by brute force and an independent trace replay. Termination is not "
+            "proved (fuel in the model; searched for with time limits on the implementation).",
     "note": "Trusted: Lean kernel, propext/Classical.choice/Quot.sound, the harness generators and the recording of Python set orders, the "
-            "sat.json translator. tseitin.encode is judged by the real checker plus brute-force equisatisfiability; its construction is not modelled.",
+            "sat.json translator. That tseitin.encode's result is a checker-accepted theorem is judged by the real checker on generated formulas "
+            "(not proved); its CNF is compared with the model's. trace_valid is about the model's final clause list; that the proofs alone pass "
+            "checkProofs is checked on the implementation's outputs, not proved for the model.",
     "design_ref": "DESIGN.md 4/C15",
 }
 FINDINGS = [
